@@ -796,7 +796,7 @@ func (c *Ctx) checkTokenTables(r *Report, fn *ssa.Function, li *lexerInfo, ctc, 
 
 func init() {
 	register("C16", &propDef{
-		explain: "Position-accounting rules on the SSA of the lexer: for every function returning a slice of the input as token text the bounds are [token start, current position] at that return; on every path of NextToken to a constant token the position advanced by exactly the token's length; unchecked token-table lookups are reached only with registered bytes/byte pairs (the path conditions are propagated as sets over all 65,536 byte pairs, byte predicates constant-folded); identifiers go through the keyword table; the end marker requires the position to be past the input. Together these are the tiling property's mechanism, decided for all inputs rather than for strings up to a length. Also: the by-type and by-lexeme tables hold the same token instance, and nothing reachable from token production replaces, clears or deletes from the interning table.",
+		explain: "Position-accounting rules on the SSA of the lexer: for every function returning a slice of the input as token text the bounds are [token start, current position] at that return; on every path of NextToken to a constant token the position advanced by exactly the token's length; unchecked token-table lookups are reached only with registered bytes/byte pairs (the path conditions are propagated as sets over all 65,536 byte pairs, byte predicates constant-folded); identifiers go through the keyword table; the end marker requires the position to be past the input. Together these are the tiling property's mechanism, decided for all inputs rather than for strings up to a length. Also: the by-type and by-lexeme tables hold the same token instance, and nothing reachable from token production replaces, clears or deletes from the interning table. Also: the terminator search of block comments starts at token start + 2 (position followed symbolically through the entry block).",
 		assume:  []string{"string/comment tokens: readString's decoded text is not compared with the bytes spanned (escape decoding is C02/C14's concern); only their position accounting is implied by R1 of the slice-returning readers", "skipWhitespace consumes only whitespace bytes (isWhiteSpace constant-folded in C08)"},
 		run:     runC16,
 	})
